@@ -138,7 +138,7 @@ impl Prop for C13 {
     }
     fn cases(&self, tier: Tier) -> u64 {
         match tier {
-            Tier::Quick => 30_000,
+            Tier::Quick => 120_000,
             Tier::Thorough => 800_000,
         }
     }
